@@ -577,6 +577,38 @@ let cmd_pipe () =
     done
   with End_of_file -> ()
 
+(* the net of component models that Liveness.pipeline_completes talks about, run to rest (PipeNet.v);
+   only pipelines of map/filter/scan/take/skip over a finite input: anything else prints "-" *)
+let cmd_netpipe () =
+  try
+    while true do
+      let line = input_line stdin in
+      if String.trim line <> "" then begin
+        let h = List.map (fun t ->
+          match String.index_opt t '=' with
+          | Some i -> (String.sub t 0 i, String.sub t (i + 1) (String.length t - i - 1))
+          | None -> (t, "")) (tokens line) in
+        let xs = List.map nat_of_int (parse_list (get h "xs" "-")) in
+        let st = get h "stages" "-" in
+        let unary = get h "inf" "-" = "-" &&
+          List.for_all (fun s -> s = "" || List.exists (fun pre ->
+            String.length s > String.length pre && String.sub s 0 (String.length pre) = pre)
+            ["map:"; "filter:"; "scan:"; "take:"; "skip:"]) (String.split_on_char ';' (if st = "-" then "" else st)) in
+        if not unary then print_endline "-" else begin
+          let stages = if st = "-" || st = "" then []
+            else List.concat_map parse_stage (List.filter (fun s -> s <> "") (String.split_on_char ';' st)) in
+          match net_pipe_run stages xs with
+          | None -> print_endline "-"
+          | Some (((outs, nx), fin), idle) ->
+              let u = String.concat " " (List.map (fun v -> Printf.sprintf "user:%d" (int_of_nat v)) outs) in
+              let u = if u = "" then "" else u ^ " " in
+              Printf.printf "F: %snexts=%d | P: %snexts=%d done=%d%s\n" u (int_of_nat nx) u (int_of_nat nx)
+                (if fin then 1 else 0) (if idle then "" else " NOT-AT-REST")
+        end
+      end
+    done
+  with End_of_file -> ()
+
 let gen_list () : string =
   let l = rand 3 in
   if l = 0 then "-" else String.concat "," (List.init l (fun _ -> string_of_int (rand 10)))
@@ -998,6 +1030,7 @@ let () =
   | _ :: "texplore" :: limit :: rest -> cmd_texplore (int_of_string limit) (String.concat " " rest)
   | _ :: "tgen" :: seed :: count :: syss -> cmd_tgen (int_of_string seed) (int_of_string count) syss
   | _ :: "pipe" :: _ -> cmd_pipe ()
+  | _ :: "netpipe" :: _ -> cmd_netpipe ()
   | _ :: "genpipe" :: seed :: count :: _ -> cmd_genpipe (int_of_string seed) (int_of_string count)
   | _ :: "run" :: _ -> cmd_run ()
   | _ :: "conf" :: _ -> cmd_conf ()
